@@ -760,3 +760,127 @@ func (c *Ctx) checkDecisionAfterJoin(r *Result, fn *ssa.Function, wait ssa.Instr
 		}
 	}
 }
+
+// ---- additional necessary condition found by the third round of seeded changes ----
+
+func init() {
+	reg := registry["C18"]
+	reg.Meta.Rules["C18.7"] = "a running background worker is never replaced: a field that holds an object owning a goroutine is assigned a new one only where the old one is nil / not running, or after its Stop"
+	reg.Rules = append(reg.Rules, c18workerReplaced)
+}
+
+func c18workerReplaced(c *Ctx, r *Result) {
+	// worker types: receivers of methods that contain a go statement
+	workers := map[string]bool{}
+	for _, fn := range c.LibFuncs() {
+		hasGo := false
+		instrs(fn, func(in ssa.Instruction) {
+			if _, ok := in.(*ssa.Go); ok {
+				hasGo = true
+			}
+		})
+		if !hasGo {
+			continue
+		}
+		root := fn
+		for root.Parent() != nil {
+			root = root.Parent()
+		}
+		if recv := root.Signature.Recv(); recv != nil {
+			workers[namedShort(recv.Type())] = true
+		}
+	}
+	if len(workers) == 0 {
+		r.Errorf("C18.7: no type with a goroutine-starting method found")
+		return
+	}
+	n := 0
+	for _, fn := range c.LibFuncs() {
+		instrs(fn, func(in ssa.Instruction) {
+			st, ok := in.(*ssa.Store)
+			if !ok {
+				return
+			}
+			fa, ok := st.Addr.(*ssa.FieldAddr)
+			if !ok {
+				return
+			}
+			f, base := fieldOfAddr(fa)
+			if f == nil || !workers[namedShort(f.Type())] {
+				return
+			}
+			if _, isPtr := f.Type().Underlying().(*types.Pointer); !isPtr {
+				return
+			}
+			// only assignments of a new object (not nil-ing out, not copying an existing one)
+			if _, isAlloc := st.Val.(*ssa.Alloc); !isAlloc {
+				return
+			}
+			// constructors of the owner (the field cannot hold anything yet)
+			if al, isAl := fa.X.(*ssa.Alloc); isAl && al.Heap {
+				return
+			}
+			n++
+			key := fieldKey(base.Type(), f)
+			isOld := func(v ssa.Value) bool {
+				ld, ok := isLoad(v)
+				if !ok {
+					return false
+				}
+				f2, b2 := fieldOfAddr(ld.X)
+				return f2 != nil && fieldKey(b2.Type(), f2) == key
+			}
+			stopped := func(x ssa.Instruction) bool {
+				call, ok := x.(*ssa.Call)
+				if !ok {
+					return false
+				}
+				name := c.calleeName(call)
+				if !strings.HasSuffix(name, ".Stop") && !strings.HasSuffix(name, ".stop") {
+					return false
+				}
+				return len(call.Call.Args) > 0 && isOld(call.Call.Args[0])
+			}
+			cut := func(from, to *ssa.BasicBlock) bool {
+				ifi, ok := from.Instrs[len(from.Instrs)-1].(*ssa.If)
+				if !ok || from.Succs[0] == from.Succs[1] {
+					return false
+				}
+				taken := from.Succs[0] == to
+				cond := ifi.Cond
+				neg := false
+				if u, isU := cond.(*ssa.UnOp); isU && u.Op == token.NOT {
+					cond, neg = u.X, true
+				}
+				switch x := cond.(type) {
+				case *ssa.BinOp:
+					// F != nil false edge / F == nil true edge
+					if (x.Op == token.NEQ || x.Op == token.EQL) && (isNilConst(x.Y) && isOld(x.X) || isNilConst(x.X) && isOld(x.Y)) {
+						isNil := (x.Op == token.EQL) == taken
+						if neg {
+							isNil = !isNil
+						}
+						return isNil
+					}
+				case *ssa.Call:
+					// old.isRunning() false edge
+					n := strings.ToLower(c.calleeName(x))
+					if strings.Contains(n, "running") && len(x.Call.Args) > 0 && isOld(x.Call.Args[0]) {
+						notRunning := !taken
+						if neg {
+							notRunning = !notRunning
+						}
+						return notRunning
+					}
+				}
+				return false
+			}
+			ok = mustPrecedeE(st, stopped, cut)
+			r.Check(ok, "C18.7", c.Name(fn)+"#"+key+"#running-worker-not-replaced", c.InstrPos(st), "a new "+namedShort(f.Type())+" is stored only on paths where the previous one was found nil / not running, or was stopped first (otherwise its goroutine keeps running with no handle left to stop it)")
+		})
+	}
+	if n < 1 {
+		r.Errorf("C18.7: no assignment of a new worker object to a field found")
+	}
+	r.Floor("C18.7", 1)
+}
